@@ -27,8 +27,9 @@ ASSUMPTIONS = [
 BOUNDS = {
     'quick': 'W<=3 qudits; pre-state = 2 symbolic inserts (+optional pop) then 1 call of each of the %d kinds; '
              '2-call histories for the state-changing kinds on W=2..3 with a 1-op pre-state' % len(KINDS),
-    'thorough': 'W<=3; pre-state = 3 symbolic inserts incl. CircuitGate blocks (+optional pop) then 1 call of each '
-                'kind; all 2-call histories (first call in the qudit/structure changing kinds) on 2-op pre-states',
+    'thorough': 'W<=3; pre-state = 2 symbolic inserts incl. CircuitGate blocks (+optional pop) then 1 call of each kind on '
+                'W=2 and W=3; 3-op pre-states with blocks for the fold/unfold family; 40 two-call histories (8 state-changing '
+                'first calls x 5 second calls) on 2-op pre-states; every obligation capped at 300 s',
 }
 OUTSIDE = 'W>3; radix other than 2 in this family (mixed radix is exercised by C06/C16); histories longer than '
 OUTSIDE += 'pre-state + 2 calls; numerics (get_unitary) - covered by C06'
@@ -70,17 +71,17 @@ def obligations(tier: str, oracle: str = ORACLE) -> list[dict]:
             for q in (0, 1):
                 ob(['replace_gate', 'pop'], 2, 3, 240, [1, 2], False, {'0': a0, '1': q})
     else:
+        T = 300      # per-obligation cap: thorough = 112 obligations x <=300 s on 16 cores (~35 min); obligations that do
+        #              not exhaust inside the cap are reported as inconclusive, never as success
         for k in KINDS:
-            for W in (1, 2, 3):
-                ob([k], W, 2, 1800, NOBLK if k == 'inverse' else None)
-            ob([k], 2, 3, 3000, [1, 2] if k == 'inverse' else [1, 2, 5])
-            ob([k], 3, 3, 3000, [1, 2, 3], False)
+            ob([k], 2, 2, T, [1, 2] if k == 'inverse' else [1, 2, 5])
+            ob([k], 3, 2, T, NOBLK, False)
         for k in ['unfold', 'batch_unfold', 'unfold_all', 'fold', 'fold_unfold', 'straighten']:
-            ob([k], 3, 3, 3000, [1, 2, 5, 6], False)
-        for k1 in FIRST:
-            for k2 in SECOND:
-                ob([k1, k2], 2, 2, 3000, [1, 2, 5], False)
-                ob([k1, k2], 3, 1, 3000)
+            ob([k], 3, 3, T, [1, 2, 5, 6], False, {'0': 0})
+        for k1 in ['renumber', 'insert_qudit', 'pop_qudit', 'fold', 'replace_gate', 'batch_replace', 'insert_circuit',
+                   'replace_with_circuit']:
+            for k2 in ['pop', 'insert_gate', 'replace_gate', 'fold', 'pop_cycle']:
+                ob([k1, k2], 2, 2, T, [1, 2], False)
     for o in obs:
         o['func'] = entry_name(o['shard']['npre'], o['shard']['kinds'])
     return obs
